@@ -187,11 +187,14 @@ def r2_nondet_sources(c, facts, reach):
         if not fn.mir:
             continue
         # config/bootstrap code of the CLI main is not in `reach` (run() is the root)
+        before = len(c.violations)
+        ncalls = 0
         for bi, t in fn.calls():
             info = callee_of(t)
             if not info:
                 continue
             calls += 1
+            ncalls += 1
             d = info['def']
             if NONDET_CALLS.match(d):
                 c.bad(R, '%s:%s' % (fn.qname, d), '%s calls %s, a nondeterminism source reachable from the pipeline (%s:%s)'
@@ -207,7 +210,8 @@ def r2_nondet_sources(c, facts, reach):
                     k = s['rv']['kind']
                     if 'PointerExposeProvenance' in k or 'PointerExposeAddress' in k:
                         c.bad(R, '%s:ptr-to-int' % fn.qname, '%s casts a pointer to an integer (%s:%s)' % (fn.qname, fn.file, s['ln']))
-    c.ok(R, {'pipeline_calls_scanned': calls})
+        if ncalls and len(c.violations) == before:
+            c.ok(R, {'fn': fn.qname, 'resolved_calls_scanned': ncalls})
     return calls
 
 
@@ -255,4 +259,8 @@ def run(c, facts):
                 if C.unordered_hash_type(l['ty']):
                     holders.add(fn.qname)
     c.extra['functions_holding_unordered_maps'] = sorted(holders)
+    flagged = {v['detail'].get('fn') for v in c.violations if v['rule'] == 'C06.R1'}
+    for h in sorted(holders):
+        if h not in flagged:
+            c.ok('C06.R1', {'fn': h, 'unordered_map': 'held for lookup / insertion only (no order-revealing use)'})
     c.floor('C06.R1', 'pipeline functions holding an unordered map (lookup-only uses)', len(holders), 8)
